@@ -273,6 +273,9 @@ func runCell(o *stack.Olla, be *stack.Backend, c cell) {
 	p, cl := problem, clause
 	mu.Unlock()
 	res.SetAdd("distinct_nontrivial", c.String())
+	if c.event != "none" && c.point == c.nchunks-1 && c.size == 1 {
+		res.Sample(map[string]any{"cell": c.String(), "live_delivery_promised": c.livePromised(), "problem": p})
+	}
 	if p != "" {
 		extra := map[string]any{}
 		if cl == "chunk-not-delivered-live" {
